@@ -704,7 +704,7 @@ class AsyncServer:
 
         .. seealso:: :meth:`Server.stream`
         """
-        async for z in async_fifo_stream(
+        results = async_fifo_stream(
             data_stream,
             self._enqueue,
             capacity=self._capacity,
@@ -713,5 +713,12 @@ class AsyncServer:
             preprocessor=preprocessor,
             return_x=return_x,
             return_exceptions=return_exceptions,
-        ):
-            yield z
+        )
+        try:
+            async for z in results:
+                yield z
+        finally:
+            # Closing this generator must also stop the feeder task of the inner one;
+            # otherwise it keeps enqueuing requests (even after `__aexit__`) until
+            # the garbage collector gets to it.
+            await results.aclose()
